@@ -37,3 +37,33 @@ for ch in ("A", "W"):
        functions=["uriEqualsUri" + ch, "uriCompareRange" + ch], stubs=[], inlined=["uriCompareRange" + ch],
        kf=["C11-abspath-ignored-when-scheme-present"],
        timeout_s=by_tier(300, 1800), mem_gb=8)
+
+for ch in ("A", "W"):
+    ob(id="CompareRange.%s.D" % ch, props=["C11", "C19"], route="D", harness="d_common.c", entry="h_CompareRange", char=ch,
+       group="uriCompareRange function contract (all lengths)",
+       enforce=["uriCompareRange" + ch], replace=["strncmp" if ch == "A" else "wcsncmp"],
+       level="P", bounds="none (range lengths symbolic < 2^30)",
+       functions=["uriCompareRange" + ch], stubs=["strncmp/wcsncmp (assumed libc contract, call logged)"],
+       require_classes={"contract.post": 4}, timeout_s=300, mem_gb=6)
+
+# ----------------------------------------------------------------------------------------------------------------
+# C15  completed memory manager (src/UriMemory.c); not character dependent
+def c15(fn, entry, replace=(), **kw):
+    ob(id="%s.D" % fn, props=["C15"] + kw.pop("more_props", []), route="D", harness="d_memory.c", entry=entry, char="A",
+       group="%s function contract" % fn, enforce=[fn], replace=list(replace), level="P", bounds="none",
+       functions=[fn], timeout_s=300, mem_gb=6, **kw)
+
+
+c15("uriDecorateMalloc", "h_DecorateMalloc", restrict_fp=["uriDecorateMalloc.function_pointer_call.1/be_malloc_contract"], stubs=["backend->malloc (assumed contract be_malloc_contract)"])
+c15("uriDecorateFree", "h_DecorateFree", restrict_fp=["uriDecorateFree.function_pointer_call.1/be_free_contract"], stubs=["backend->free (assumed contract be_free_contract)"])
+c15("uriEmulateCalloc", "h_EmulateCalloc", replace=["memset"], backend="cvc5", restrict_fp=["uriEmulateCalloc.function_pointer_call.1/mm_malloc_contract"], stubs=["memory->malloc (assumed contract mm_malloc_contract)", "memset (assumed libc contract, ghost-indexed)"])
+c15("uriEmulateReallocarray", "h_EmulateReallocarray", backend="cvc5", restrict_fp=["uriEmulateReallocarray.function_pointer_call.1/mm_realloc_contract"], stubs=["memory->realloc (contract mm_realloc_contract: any result, call logged)"])
+c15("uriMemoryManagerIsComplete", "h_IsComplete", more_props=["C13"])
+c15("uriDecorateRealloc", "h_DecorateRealloc", replace=["memcpy"],
+    restrict_fp=["uriDecorateRealloc.function_pointer_call.1/mm_malloc_contract", "uriDecorateRealloc.function_pointer_call.2/mm_free_contract",
+                 "uriDecorateRealloc.function_pointer_call.3/mm_malloc_contract", "uriDecorateRealloc.function_pointer_call.4/mm_free_contract"],
+    stubs=["memory->malloc (mm_malloc_contract)", "memory->free (mm_free_contract: requires exactly the hdr block's client pointer)", "memcpy (assumed libc contract, ghost-indexed)"])
+c15("uriCompleteMemoryManager", "h_Complete")
+ob(id="lemma.mul_overflow_check.Lean", props=["C15"], route="L", harness="", cmd=["lean", "{VERIF}/spec/lemmas/MulOverflow.lean"],
+   group="lemma mul_overflow_check: (n != 0 && ((n*s) mod 2^64)/n != s) <=> n*s >= 2^64, all n,s < 2^64 (Lean 4 kernel)",
+   level="P", bounds="none", functions=[], backend="lean 4.33", timeout_s=300, mem_gb=8)
